@@ -149,6 +149,9 @@ def run_case(kind, idx, rng, sh):
             secs.append(elfgen.Sec('.gnu.version_r', 0x6ffffffe, flags=2, data=bytes(buf), link='.dynstr',
                                    info=nent, align=4))
     vers = [rng.choice([0, 1, 2, 3, 0x8002, 0x8004, 0xff00, 0xff01, 0xffff, rng.getrandbits(16)]) for _ in range(nsym)]
+    if kind == 'versym' and nsym >= 3 and rng.random() < 0.1:
+        # the table's own size says how many entries it has, even where the symbol table holds more
+        vers = vers[:nsym - rng.choice([1, 2])]
     secs.append(elfgen.Sec('.gnu.version', 0x6fffffff, flags=2, data=b''.join(struct.pack(E + 'H', v) for v in vers),
                            link='.dynsym', entsize=2, align=2))
     rng.shuffle(secs)
@@ -165,13 +168,15 @@ def run_case(kind, idx, rng, sh):
         if not isinstance(vs, GNUVerSymSection):
             sh.violation('C15:versym section class %s' % type(vs).__name__)
             return
-        want = [(symnames[i], VERSYM.get(vers[i], vers[i])) for i in range(nsym)]
+        nver = len(vers)
+        want = [(symnames[i], VERSYM.get(vers[i], vers[i])) for i in range(nver)]
         poison([st], rng)
         got = [(s.name, s['ndx']) for s in P(vs.iter_symbols())]
-        if vs.num_symbols() != nsym or got != want:
-            sh.violation('C15:versym enumeration', n=nsym, got=got[:5], want=want[:5], num=vs.num_symbols())
+        if vs.num_symbols() != nver or got != want:
+            sh.violation('C15:versym enumeration%s' % (' (table shorter than the symbol table)' if nver != nsym else ''), n=nver, got=got[:5],
+                         want=want[:5], num=vs.num_symbols())
             return
-        order = list(range(nsym))
+        order = list(range(nver))
         rng.shuffle(order)
         for i in order[:40]:
             poison([st], rng)
